@@ -2026,7 +2026,7 @@ class StringMixin(MonadMixin):
         translator = monad.translator
         if isinstance(item, StringConstMonad):
             value = item.value
-            if '%' in value or '_' in value:
+            if '%' in value or '_' in value or '\\' in value:  # backslash is the default LIKE escape in PostgreSQL and MySQL
                 escape = True
                 value = value.replace('!', '!!').replace('%', '!%').replace('_', '!_')
             if before: value = before + value
